@@ -349,10 +349,20 @@ def getFlat (j : Json) : Except String Flat := do
   pure { type := ty, format := fmt, props := props, required := req, addlHas := addlHas, addlSchema := addlSchema, flags := flags, hasDefault := dflt }
 
 open Merge in
+partial def getSch (j : Json) : Except String Sch := do
+  let f ← getFlat j
+  match j.getObjVal? "allOf" with
+  | .error _ => pure (.mk f [])
+  | .ok a =>
+    let arr ← a.getArr?
+    let subs ← arr.toList.mapM getSch
+    pure (.mk f subs)
+
+open Merge in
 def mergeD (j : Json) : Except String Json := do
   let msJ ← (← j.getObjVal? "members").getArr?
-  let ms ← msJ.toList.mapM getFlat
-  match mergeList ms with
+  let ms ← msJ.toList.mapM getSch
+  match mergeTop ms with
   | .error e => pure (Json.mkObj [("error", e)])
   | .ok r => pure (Json.mkObj [
       ("type", match r.type with | some t => Json.num t | none => Json.null), ("format", Json.num r.format),
